@@ -16,6 +16,7 @@ THEOREMS = {
     "C11_model_is_source_smooth_plates": "likewise for RetrospectivePlateSmoother.smooth_plates and every inner smoother (in particular smooth_plates sm for every shipped smoother)",
     "C11_model_is_source_merge_min_get_plate_sample_id": "the translation of the whole method MergeMinPlateSmoother._get_plate_sample_id (len > 1 test, raise, [0]) regenerated from /repo's retrospective.py, applied to the plate named p of a screen, equals the model's plate_sample p, for all screens and p",
     "C11_model_is_source_merge_min_smooth_plates": "the translation of the whole method MergeMinPlateSmoother._smooth_plates (loop over samples, heap comprehension, while True with both breaks, two heappops, merge, push) regenerated from /repo's retrospective.py equals the model merge_min for every min_size, screen and answer stream, whenever the explicit while-fuel exceeds the number of experiments of the screen (e.g. fuel = S (length rows))",
+    "C11_model_is_source_create_plate_balanced_holdout_set_among_masked_plates": "the translation of the whole function create_plate_balanced_holdout_set_among_masked_plates (range check and raise, loop over plates, is_observed continue, ceil(plate.size*fraction), rng.choice, selection_vector[indices] = True, both Screen(...) calls, returned pair) regenerated from /repo's retrospective.py equals the model holdout_balanced for every fraction num/den, count mode, screen and answer stream",
     "C11_generator_conserves": "every shipped generator, any oracle: generate_plates = Ok out -> out = new ++ observed input rows (unchanged), new all unobserved, new minus plate labels is a Permutation of the unobserved input rows minus plate labels",
     "C11_relabel_conserves": "generic: ANY relabelling of plates (any label oracle) leaves rows-minus-label unchanged, in order",
     "C11_smoother_sub": "every shipped smoother, any oracle: smooth_plates = Ok out -> out = new ++ observed input rows, new all unobserved, exists rest with Permutation (strip new ++ rest) (strip unobserved input)",
